@@ -973,6 +973,22 @@ def make_libs(I):
             return os.path.basename(a[0])
         return opaque_str(I, 'basename')
 
+    @reg('scipy.ndimage.filters.gaussian_filter')
+    def _gaussian(I, a, k):
+        H = I.np.as_array(a[0])
+        SH = I.ctx.fresh_fn('smoothed', *([z3.IntSort()] * H.ndim + [z3.RealSort()]))
+        I.ctx.use_axiom('A-LIB:scipy.ndimage gaussian_filter: an uninterpreted array of the same shape (a function of the histogram and sigma)')
+        out = I.np.new(list(H.shape), 'float', lambda *idx: SH(*idx))
+        out.smooth_of = (H, k.get('sigma'))
+        return out
+    L['scipy.ndimage.gaussian_filter'] = L['scipy.ndimage.filters.gaussian_filter']
+
+    @reg('skimage.measure.find_contours')
+    def _find_contours(I, a, k):
+        # contour geometry is outside the model (C05: stated): no contour is produced, so the code mapping contours to data space is not exercised
+        I.ctx.use_axiom('A-LIB:skimage.measure.find_contours abstracted to "no contours" (contour geometry is not modelled)')
+        return stamp(Seq('list', []))
+
     @reg('scipy.stats.gmean')
     def _gmean(I, a, k):
         return I.np.col_stat('gmean', a[0], k.get('axis', a[1] if len(a) > 1 else 0))
